@@ -504,8 +504,12 @@ impl Spec {
             it.value.hash(&mut h);
             it.flags.hash(&mut h);
             it.cas.hash(&mut h);
-            sorted(&it.seen).hash(&mut h);
-            it.tainted.hash(&mut h);
+            if !self.evictable {
+                // under eviction every store forks (continuing vs new lifetime); the forks differ only
+                // in the CAS history, which the eviction properties do not judge
+                sorted(&it.seen).hash(&mut h);
+                it.tainted.hash(&mut h);
+            }
             it.ttls.hash(&mut h);
             it.alive_until.hash(&mut h);
             it.dead_from.hash(&mut h);
